@@ -95,8 +95,22 @@ def static_hazard(rng):
     """class-level initialisation orders that an interpreter can get fatally wrong: a generic class whose static creates its own
     specialisation, two generic classes whose statics create each other, statics reading statics of classes declared later, static and
     field initialisers that fail at run time (the failure must be a located diagnostic)"""
-    k = rng.randrange(8)
+    k = rng.randrange(10)
     t = rng.choice(["int", "string", "Item", "float"])
+    if k >= 8:
+        # a destructor that leaks `this` (into a static, another object's field, an array): the alias must never dangle
+        where = ["Keep.last = this;", "Keep.box.held = this;"][k - 8]
+        n1, n2, n3 = rng.randrange(1, 9), rng.randrange(10, 19), rng.randrange(20, 29)
+        return ("class Box { public Obj held = null; public constructor() -> Box = default; }\n"
+                "class Keep { public static Obj last = null; public static Box box = new Box(); public constructor() -> Keep = default; }\n"
+                "class Obj { public int v; public int[] data = {1, 2, 3}; public constructor(int v) -> Obj { this.v = v; return this; }\n"
+                "  public destructor() -> void { %s } }\n"
+                "function make(int k) -> void { Obj o = new Obj(k); }\n"
+                "function main() -> void { make(%d); Obj other = new Obj(%d); Obj again = new Obj(%d); make(%d);\n"
+                "  if (Keep.last != null) { echo(Keep.last.v); echo(Keep.last.data); }\n"
+                "  if (Keep.box.held != null) { echo(Keep.box.held.v); }\n"
+                "  if (Keep.last != null) { Obj z = Keep.last; z.v = 5; echo(z.v); }\n"
+                "  echo(other.v + again.v); }" % (where, n1, n2, n3, n1 + 1))
     item = "class Item { public int w = 3; public constructor() -> Item = default; }\n"
     if k == 0:
         return item + ("class Node<T> { public static int made = 0; public static Node<T> empty = new Node<T>(); public Node<T> next;\n"
